@@ -20,7 +20,7 @@ payload_any = st.one_of(
     st.text(max_size=20).map(lambda s: s.encode("utf-8")),
     st.binary(min_size=1, max_size=4).map(lambda b: b"\xff\xfe" + b),
     st.binary(min_size=100, max_size=4096),
-    st.just(b'{"iss":"joe","exp":1300819380}'),
+    st.just(b'{"iss":"joe","exp":1300819380}'), st.just(b'{"sub":"a","n":[1,2],"o":{"k":null}}'), st.just(b"{}"),
 )
 payload_utf8 = st.one_of(st.just(b""), _urlsafe, st.just(b"a.b.c"), st.just(b"$.02"), st.just(b"with space\n"),
                          st.text(max_size=40).map(lambda s: s.encode("utf-8")),
